@@ -264,7 +264,7 @@ def tie_shape(classes):
 
 
 INT_ENC = ["int", "int_relabel"]
-ALL_ENC = ["int", "int_relabel", "float", "mixed", "bool", "huge", "zero_neg", "small_ints", "close", "scores", "scores_small", "scores_float", "scores_huge", "omitted"]
+ALL_ENC = ["int", "int_relabel", "float", "mixed", "bool", "huge", "zero_neg", "small_ints", "half_grid", "close", "scores", "scores_small", "scores_float", "scores_huge", "omitted"]
 
 
 @st.composite
@@ -291,6 +291,21 @@ def _increasing(draw, m, kind):
             out.append(cur)
             cur -= g
         return list(reversed(out))
+    if kind == "half_grid":
+        # a small grid of halves, ints where integral (0, 0.5, 1, 1.5, ...): endpoints and integer values coincide with what positional
+        # ranks look like ([0, 0.5, 2] spans exactly 0..n-1 without being a permutation of it)
+        lo = draw(st.sampled_from([0, 0, 0, -2, 1]))
+        ks = sorted(draw(st.lists(st.integers(0, 2 * m + 2), min_size=m, max_size=m, unique=True)))
+        if draw(st.booleans()) and m >= 2:
+            ks[0], ks[-1] = 0, max(2 * (m - 1), ks[-2] + 1)  # span exactly lo .. lo + m - 1
+            ks = sorted(set(ks))
+            while len(ks) < m:
+                ks = sorted(set(ks + [max(ks) + 1]))
+        out = []
+        for k in ks:
+            v = lo + k / 2.0
+            out.append(int(v) if v == int(v) and draw(st.booleans()) else v)
+        return out
     if kind == "small_ints":
         # dense small integers around zero: different games keep producing the same / neighbouring value tuples
         # (-2, -1), (-1, -1), (-1, 0), ... - what a value-keyed cache or a hash-keyed lookup would confuse
@@ -319,7 +334,7 @@ def _increasing(draw, m, kind):
     if kind == "huge":
         # includes neighbours that only exact integer comparison keeps apart (2^53 vs 2^53 + 1, 2^60 vs 2^60 + 1, 10^30 vs 10^30 + 1)
         pool = [-10 ** 30 - 1, -10 ** 30, -1e300, -2 ** 60 - 1, -2 ** 60, -2 ** 53 - 1, -2.0 ** 53, -10 ** 18, -1.5, 0, 0.5, 2.0 ** 53, 2 ** 53 + 1,
-                2 ** 60, 2 ** 60 + 1, 10 ** 18, 10 ** 18 + 1, 1e300, 10 ** 30, 10 ** 30 + 1]
+                2 ** 60, 2 ** 60 + 1, 1e18, 10 ** 18 + 1, 1e300, 10 ** 30, 10 ** 30 + 1]
         pool = sorted(set(pool))
         for a, b in zip(pool, pool[1:]):
             assert a < b
@@ -388,6 +403,9 @@ def games(draw, kinds=KINDS, enc_kinds=ALL_ENC, regimes=REGIMES, max_teams=8, ma
     for k, v in opts.items():
         if v is not None:
             call[k] = v
+    if frag and draw(st.integers(0, 9)) == 0:
+        # the values are ints / floats by isinstance, but instances of subclasses (what enum.IntEnum members, or a user's own numeric types, are)
+        call["number_types"] = draw(st.sampled_from(["int-subclass", "float-subclass", "both"]))
     return {"cfg": cfg, "teams": teams, "call": call, "classes": classes, "meta": {"regime": regime, "enc": enc, **info}}
 
 
